@@ -32,6 +32,10 @@ def variant(name):
         v["profile"] = "dev"
     if base == "rel":
         pass
+    elif base == "ovf":
+        # release code generation (debug_assertions off) but with arithmetic overflow checks on:
+        # silent wrapping in release becomes a panic
+        v["rustflags"] += " -Coverflow-checks=on"
     elif base == "sse42ct":
         v["rustflags"] += " -Ctarget-feature=+sse4.2"
     elif base == "avx2ct":
